@@ -14,7 +14,7 @@ pub fn mon() -> Mon {
         run,
         finish,
         replay,
-        rule: "Seeded random histories (length 1-300) over two or three independent contexts interleaved, drawn from: Set Endpoint ID requests (Set / Force, EID 0x01-0xFE), Set-Discovered-Flag, Get Endpoint ID, the other identity queries, control responses (including Set Endpoint ID responses carrying an EID), PCI/IANA/SPDM/secured messages, PEC- and header-corrupted and truncated Set Endpoint ID requests, decode-only calls on all of those, set_eid on either half, get_length, Reset/reserved Set-EID operations, unsupported requests and random garbage; plus all sequences of length <= 4 over a 9-letter alphabet of those operation kinds. After EVERY step both EID accessors are compared with a sequential model (two cells, assigned by accepted Set/Force requests and by accessor writes), and Set/Get Endpoint ID responses are compared with the model (Success + accepted + new EID; completion code 2 for Set-Discovered-Flag; current EID in Get Endpoint ID). A sample of histories is logged as JSONL and re-checked by an independent Python model. Non-trivial = a history in which at least one assignment and one non-assigning operation occurred; distinct = distinct histories (hash of all operations).",
+        rule: "Seeded random histories (length 1-300 over two or three independent contexts interleaved; one in 40 is a single-context history of 300-800 operations), drawn from: Set Endpoint ID requests (Set / Force, EID 0x01-0xFE), Set-Discovered-Flag, Get Endpoint ID, the other identity queries, control responses (including Set Endpoint ID responses carrying an EID), PCI/IANA/SPDM/secured messages, PEC- and header-corrupted and truncated Set Endpoint ID requests, decode-only calls on all of those, set_eid on either half, get_length, Reset/reserved Set-EID operations, unsupported requests and random garbage; plus all sequences of length <= 4 over a 9-letter alphabet of those operation kinds. After EVERY step both EID accessors are compared with a sequential model (two cells, assigned by accepted Set/Force requests and by accessor writes), and Set/Get Endpoint ID responses are compared with the model (Success + accepted + new EID; completion code 2 for Set-Discovered-Flag; current EID in Get Endpoint ID). A sample of histories is logged as JSONL and re-checked by an independent Python model. Non-trivial = a history in which at least one assignment and one non-assigning operation occurred; distinct = distinct histories (hash of all operations).",
         assumptions: &[
             "EID values 0x00 and 0xFF in Set Endpoint ID requests are outside the quantifier and not generated",
             "an accessor write changes the half it is called on; responses report the response half (the statement's 'value since stored directly through an accessor')",
@@ -228,8 +228,10 @@ fn run(cfg: &RunCfg) -> Report {
             1 => 200 + rng.below(101) as usize,
             _ => 10 + rng.below(120) as usize,
         };
-        let len = if small { len.min(40) } else { len };
-        let nctx = 2 + rng.below(2) as usize;
+        // a few long single-context histories: anything counting operations in a byte wraps here
+        let long = !small && rng.chance(1, 40);
+        let len = if small { len.min(40) } else if long { 300 + rng.below(500) as usize } else { len };
+        let nctx = if long { 1 } else { 2 + rng.below(2) as usize };
         let (h, letters) = gen_history(&mut rng, len, nctx);
         let tid = if sh == 0 && k < 300 { Some(k) } else { None };
         run_history(&h, Some(&letters), &OWNED, 0xC13, &mut rep, tid);
@@ -241,7 +243,12 @@ fn run(cfg: &RunCfg) -> Report {
             rep.nontrivial(hash_bytes(13, h.encode().as_bytes()));
         }
         if rep.want_sample() && len < 12 {
-            rep.sample(|| J::s(h.encode()));
+            rep.sample(|| {
+                J::obj(vec![
+                    ("history", J::s(h.encode())),
+                    ("format", J::s("contexts 'addr/types-hex/format.id.value+...' joined by '~', then '#', then operations '<context index><P=process|D=decode|L=get_length|A=set_eid(request half)|B=set_eid(response half)|U=set_uuid>:<hex>'; every step was judged against the model")),
+                ])
+            });
         }
     }
     rep
